@@ -192,6 +192,11 @@ func genC09() {
 	}
 	g.def("unify_index_key", "string", coqStr(sentinel), "sentinel key of the shared list")
 
+	// LockImageConfiguration: in which order the architectures reach unify
+	order, onode := c09ArchOrder(findFunc(lrel, "", "LockImageConfiguration"), lrel)
+	g.def("lock_archs_order", "string", coqStr(order),
+		"order in which LockImageConfiguration hands the per-architecture resolutions to unify (sorted | map-range), loop at "+g.pos(onode))
+
 	// ---- internal/cli/lock.go ---------------------------------------------
 	const crel = "internal/cli/lock.go"
 	lc := findFunc(crel, "", "LockCmd")
@@ -269,4 +274,145 @@ func genC09() {
 	g.def("apk_resolved_hashes", "list (string * string)", c09List(hashes), "APKResolved hash fields <- APKExpanded fields")
 
 	g.write()
+}
+
+// c09ArchOrder: LockImageConfiguration fills the slice it passes to unify in a
+// loop; the order of that loop decides which architecture unify starts from
+// (finding C09-F3). Recognised: a range over an ascending-sorted key slice
+// (sort.Slice / sort.SliceStable with `k[i] < k[j]`, slices.Sort, sort.Strings,
+// slices.Sorted(maps.Keys(m)) — as a local or in the range clause itself) =
+// "sorted"; a range that takes the KEYS of something directly = "map-range".
+// Anything else is a broken tie.
+func c09ArchOrder(fd *ast.FuncDecl, rel string) (string, ast.Node) {
+	if fd == nil {
+		return "sorted", nil
+	}
+	unparen := func(e ast.Expr) ast.Expr {
+		for {
+			p, ok := e.(*ast.ParenExpr)
+			if !ok {
+				return e
+			}
+			e = p.X
+		}
+	}
+	// the slice handed to unify
+	slice := ""
+	ast.Inspect(fd, func(n ast.Node) bool {
+		if c, ok := n.(*ast.CallExpr); ok && exprText(c.Fun) == "unify" && len(c.Args) == 2 {
+			if id, ok := unparen(c.Args[1]).(*ast.Ident); ok {
+				slice = id.Name
+			}
+		}
+		return true
+	})
+	if slice == "" {
+		fail("%s: LockImageConfiguration: no call unify(originals, <slice>)", rel)
+		return "sorted", fd
+	}
+	appendsTo := func(body ast.Node) bool {
+		found := false
+		ast.Inspect(body, func(n ast.Node) bool {
+			as, ok := n.(*ast.AssignStmt)
+			if !ok || len(as.Lhs) != 1 || len(as.Rhs) != 1 || exprText(as.Lhs[0]) != slice {
+				return true
+			}
+			if c, ok := as.Rhs[0].(*ast.CallExpr); ok && exprText(c.Fun) == "append" && len(c.Args) >= 2 && exprText(c.Args[0]) == slice {
+				found = true
+			}
+			return true
+		})
+		return found
+	}
+	var loop *ast.RangeStmt
+	ast.Inspect(fd, func(n ast.Node) bool {
+		if rs, ok := n.(*ast.RangeStmt); ok && loop == nil && appendsTo(rs.Body) {
+			loop = rs
+			return false
+		}
+		return true
+	})
+	if loop == nil {
+		fail("%s: LockImageConfiguration: no range loop appends to %s (the slice handed to unify)", rel, slice)
+		return "sorted", fd
+	}
+	sortedKeys := func(e ast.Expr) bool { // slices.Sorted(maps.Keys(m))
+		c, ok := unparen(e).(*ast.CallExpr)
+		if !ok || exprText(c.Fun) != "slices.Sorted" || len(c.Args) != 1 {
+			return false
+		}
+		k, ok := unparen(c.Args[0]).(*ast.CallExpr)
+		return ok && exprText(k.Fun) == "maps.Keys" && len(k.Args) == 1
+	}
+	ascending := func(fl *ast.FuncLit, k string) bool { // func(i, j int) bool { return k[i] < k[j] }
+		var ps []string
+		for _, f := range fl.Type.Params.List {
+			for _, nm := range f.Names {
+				ps = append(ps, nm.Name)
+			}
+		}
+		if len(ps) != 2 || len(fl.Body.List) != 1 {
+			return false
+		}
+		ret, ok := fl.Body.List[0].(*ast.ReturnStmt)
+		if !ok || len(ret.Results) != 1 {
+			return false
+		}
+		be, ok := unparen(ret.Results[0]).(*ast.BinaryExpr)
+		if !ok || be.Op != token.LSS {
+			return false
+		}
+		strip := func(e ast.Expr) string { // k[i], string(k[i])
+			e = unparen(e)
+			if c, ok := e.(*ast.CallExpr); ok && len(c.Args) == 1 && exprText(c.Fun) == "string" {
+				e = unparen(c.Args[0])
+			}
+			return exprText(e)
+		}
+		return strip(be.X) == k+"["+ps[0]+"]" && strip(be.Y) == k+"["+ps[1]+"]"
+	}
+	x := unparen(loop.X)
+	if sortedKeys(x) {
+		return "sorted", loop
+	}
+	if id, ok := x.(*ast.Ident); ok {
+		k := id.Name
+		isSorted := false
+		ast.Inspect(fd, func(n ast.Node) bool {
+			if n == nil || n.Pos() >= loop.Pos() {
+				return false // statements after (or inside) the loop do not order it
+			}
+			switch s := n.(type) {
+			case *ast.AssignStmt:
+				if len(s.Lhs) == 1 && len(s.Rhs) == 1 && exprText(s.Lhs[0]) == k && sortedKeys(s.Rhs[0]) {
+					isSorted = true
+				}
+			case *ast.ExprStmt:
+				c, ok := s.X.(*ast.CallExpr)
+				if !ok || len(c.Args) == 0 || exprText(c.Args[0]) != k {
+					return true
+				}
+				switch exprText(c.Fun) {
+				case "slices.Sort", "sort.Strings":
+					isSorted = len(c.Args) == 1
+				case "sort.Slice", "sort.SliceStable":
+					if len(c.Args) == 2 {
+						if fl, ok := c.Args[1].(*ast.FuncLit); ok && ascending(fl, k) {
+							isSorted = true
+						}
+					}
+				}
+			}
+			return true
+		})
+		if isSorted {
+			return "sorted", loop
+		}
+	}
+	// `for arch := range m` / `for arch, pkgs := range m`: the keys of a map, in Go's random order
+	if key, ok := loop.Key.(*ast.Ident); ok && key.Name != "_" {
+		return "map-range", loop
+	}
+	fail("%s: LockImageConfiguration: cannot tell in which order the loop at %s visits the architectures (range over %s)", rel, fset.Position(loop.Pos()), exprText(loop.X))
+	return "sorted", loop
 }
